@@ -49,6 +49,11 @@ FIXED_EXPRS = [
     "//a[@k][last()]", "a[@k][position()<last()]", "*[@k or @j][2]", "//*[@k][not(position()=1)]",
     "descendant::a/b", "descendant::b/a[@k]", "//text()[contains(@k,'')]", "//a[@k<2]", "//a[@k=1]", "//*[@k=(1=1)]",
     "preceding::*[1]", "following::*[2]", "ancestor-or-self::*[last()]", "..", "/.",
+    # and / or / comparison precedence without parentheses (`or` binds weakest, then `and`, then = !=, then < <= > >=)
+    "//*[@k or @j and @zz]", "//*[@zz and @j or @k]", "//*[@k='1' or @k='2' and @j]", "//*[@j and @zz or @k='1' or @k='x']",
+    "//*[position()=1 or @k and @j='x']", "//*[@k=1 or @k<2 and @j]", "//*[@zz or @j or @k]", "//*[@k and @j and @zz or position()=2]",
+    "//*[@k or not(@j) and @zz]", "//*[@k='1' or position()<2 and position()>1]", "//*[@j='x' = @k='x' or @zz]",
+    "//a[@k or @j and @zz][1]", "//b[@zz and @k or @k!='1' and @j]",
     # the root node as context node of every axis, followed by a step (the root node itself is never in a result)
     "/ancestor-or-self::node()/child::*", "/ancestor-or-self::node()/*/*", "../ancestor-or-self::node()/descendant::b",
     "/ancestor::node()/*", "/parent::node()/*", "/self::node()/*", "/descendant-or-self::node()/a", "/following::*",
@@ -124,6 +129,10 @@ def gen_pred(rng, depth=0, wild=True):
     if q < .72 and depth < 2:
         return "boolean(%s)" % gen_pred(rng, depth + 1, wild)
     if q < .82 and depth < 2:
+        if rng.random() < .35:
+            # three operands, mixed operators, no parentheses: precedence decides
+            return "%s %s %s %s %s" % (gen_pred(rng, 2, wild), rng.choice(["and", "or"]), gen_pred(rng, 2, wild),
+                                       rng.choice(["and", "or"]), gen_pred(rng, 2, wild))
         return "%s %s %s" % (gen_pred(rng, depth + 1, wild), rng.choice(["and", "or"]), gen_pred(rng, depth + 1, wild))
     if q < .85:
         return "concat('a','%s')='a1'" % rng.choice(["1", "2"])
@@ -186,6 +195,12 @@ def gen_expr(rng, wild=True):
     if rng.random() < .15:
         paths.append(gen_path(rng, wild))
     return paths
+
+
+def plain_safe(e):
+    """a fixed expression none of the three deviations applies to (given no default namespace in effect): lxml's result
+    for the very same string is what delb must return"""
+    return not re.search(r"following::|preceding::|node\(\)|\.\.|/\.|^\.|text\(\)=|@p:", e)
 
 
 def render_delb(paths):
@@ -384,11 +399,17 @@ def run(ctx, args):
                     lx_plain = lxml_eval(tree, node, e, nsd)
                     dflt = dict(eff).get("", "")
                     de = render_lxml(paths, dflt) if paths is not None else None
+                    if paths is None and not dflt and plain_safe(e):
+                        lx_dev_fixed = lx_plain
+                    else:
+                        lx_dev_fixed = None
                     if de is not None:
                         nsd2 = dict(nsd)
                         if dflt:
                             nsd2["D0"] = dflt
                         lx_dev = lxml_eval(tree, node, de, nsd2)
+                    if lx_dev is None and lx_dev_fixed is not None:
+                        lx_dev = lx_dev_fixed
                 cases.append({"doc": src, "expr": e, "ctx": list(pos), "namespaces": um, "real": real, "order": order,
                               "lx_plain": lx_plain, "lx_dev": lx_dev, "tuple": tup, "kind": type(node).__name__,
                               "wild": wild})
@@ -484,11 +505,13 @@ def run(ctx, args):
 
 # ---------------------------------------------------------------- state that survives between calls
 STATE_DOCS = [
-    '<r xmlns:p="u" xmlns:q="v"><p:a k="1"/><q:a/><a/><p:b><q:b/><p:a/></p:b><q:b k="2"/></r>',
+    '<r xmlns:p="u" xmlns:q="v"><p:a k="1" p:k="1"/><q:a q:k="1"/><a p:k="2" q:k="1"/><p:b><q:b p:k="1"/><p:a/></p:b><q:b k="2" q:k="2"/></r>',
     '<r xmlns="u" xmlns:q="v"><a/><q:a><a/></q:a><n xmlns=""><a/></n></r>',
 ]
 STATE_EXPRS = ["p:*", "//p:*", "descendant::p:*[1]", "p:a", "//p:a", "//p:b/p:*", "//q:* | //p:a", "*", "//*[@k]", "a", "//a",
-               "//p:*[not(position()=1)]", "descendant::p:b/*"]
+               "//p:*[not(position()=1)]", "descendant::p:b/*",
+               "//*[@p:k]", "//*[@p:k='1']", "//*[starts-with(@p:k,'1')]", "//*[not(@p:k)]", "//*[@p:k=@q:k]", "//*[@q:k or @p:k='2']",
+               "*[@p:k][1]", "//*[contains(@q:k,'1') and not(@p:k)]"]
 STATE_MAPS = [{"p": "u"}, {"p": "v"}, {"p": "u", "q": "v"}, {"p": "v", "q": "u"}, {"p": "u", "": "v"}, {"p": "v", "": "u"},
               {"p": "u"}, None, {}, {"p": "x"}]
 
